@@ -30,6 +30,12 @@ fn fq_small_alphabet(ctx: &Ctx, n_seeded: usize) -> Vec<Q1> {
     v
 }
 
+/// Frobenius powers that do not survive a narrowing of the `usize` argument (to 8, 16, 32 bits or to a signed type): for each,
+/// k mod 12 (and mod 6, mod 2 where it matters) differs from the residue of the truncated value
+fn wide_powers() -> Vec<usize> {
+    vec![256 + 1, 65536, 65536 + 1, (1usize << 31) + 1, 1usize << 32, (1usize << 32) + 1, (1usize << 32) + 5, (1usize << 63) + 7, usize::MAX - 1, usize::MAX]
+}
+
 /// generic ring sweep: unary ops + frobenius on all elements, binary ops on a sub-alphabet
 fn ring_checks<S, R>(
     ctx: &Ctx,
@@ -195,7 +201,7 @@ pub fn run(ctx: &Ctx) -> (&'static str, &'static str) {
         }
     }
     let all2: Vec<usize> = (0..e2.len()).collect();
-    let ks2: Vec<usize> = vec![0, 1, 2, 3, 4, 5, 1000001];
+    let ks2: Vec<usize> = [0, 1, 2, 3, 4, 5, 1000001].iter().cloned().chain(wide_powers()).collect();
     ring_checks::<Fq2, Q2>(ctx, "Fq2", &e2, &all2, q2_of, frob2, &ks2, show2);
     // Fq2 specifics: norm, mul_by_nonresidue
     ctx.sweep(
@@ -233,7 +239,7 @@ pub fn run(ctx: &Ctx) -> (&'static str, &'static str) {
     c6.retain(|v| seen.insert(v.clone()));
     let e6: Vec<(Fq6, Q6)> = c6.iter().map(|v| { let r = q6_from_coeffs(v); (fq6_of(&r), r) }).collect();
     let pairs6: Vec<usize> = (0..e6.len()).step_by(ctx.tier.pick(3, 1)).collect();
-    let ks6: Vec<usize> = ctx.tier.pick((0..8).collect::<Vec<_>>(), (0..14).chain(1000000..1000006).collect());
+    let ks6: Vec<usize> = ctx.tier.pick((0..8).chain(wide_powers()).collect::<Vec<_>>(), (0..14).chain(1000000..1000006).chain(wide_powers()).collect());
     ring_checks::<Fq6, Q6>(ctx, "Fq6", &e6, &pairs6, q6_of, frob6, &ks6, show6);
 
     // Fq6 specifics: mul_by_nonresidue, mul_by_1, mul_by_01 (sparse operands over a 6-value Fq2 alphabet incl. zero)
@@ -312,7 +318,7 @@ pub fn run(ctx: &Ctx) -> (&'static str, &'static str) {
             pairs12.push(idx);
         }
     }
-    let ks12: Vec<usize> = ctx.tier.pick((0..14).chain(1000005..1000007).collect::<Vec<_>>(), (0..26).chain(1000000..1000012).collect());
+    let ks12: Vec<usize> = ctx.tier.pick((0..14).chain(1000005..1000007).chain(wide_powers()).collect::<Vec<_>>(), (0..26).chain(1000000..1000012).chain(wide_powers()).collect());
     ring_checks::<Fq12, Q12>(ctx, "Fq12", &e12, &pairs12, q12_of, frob12, &ks12, show12);
 
     // conjugate
